@@ -19,6 +19,7 @@ From Coq Require Import List Bool ZArith Arith.
 Import ListNotations.
 Require MV.Model.Orch MV.Model.OrchCheck.
 Require Import MV.Spec.RefEval MV.Model.DataPlane.
+Local Open Scope nat_scope.
 
 (* ---- footprints ---- *)
 Definition wr (a : action) : nat := match a with ARoot o _ => o | ACalc o _ => o | ACopy _ b => b end.
@@ -206,3 +207,18 @@ Definition foot_of_steps (steps : list istep) : list (nat * (nat * list nat)) :=
 (* the order the orchestrator enforces: some step with id j waits (transitively) for step i *)
 Definition waits_before (p : Orch.plan) (i j : nat) : bool :=
   existsb (fun st => Nat.eqb (Orch.sid st) j && Orch.mem i (MV.Model.OrchCheck.waits_for p st)) p.
+
+(* ---- witness of the lost update (Proofs/ConfluenceP.v, lost_update_refuted_l) ---- *)
+Definition lu_d1 : fdef := {| fname := 1; inputs := [0]; c0 := 0%Z; coefs := [1%Z] |}.
+Definition lu_d2 : fdef := {| fname := 2; inputs := [0]; c0 := 0%Z; coefs := [2%Z] |}.
+Definition lu_a1 : action := ACalc 0 [lu_d1].
+Definition lu_a2 : action := ACalc 0 [lu_d2].
+Definition lu_steps : list istep := [(1, lu_a1); (2, lu_a2)].
+Definition lu_store : store := [(0, [(0, [Some 5%Z; Some 7%Z])])].
+Definition lu_ev : list mevent := [Read 1; Read 2; Write 1; Write 2].
+Definition has_col (o : outcome) (obj f : nat) : bool :=
+  match o with
+  | Ok s => match get_obj s obj with Some t => match lookup t f with Some _ => true | None => false end | None => false end
+  | _ => false
+  end.
+
